@@ -68,7 +68,7 @@ pub open spec fn answered<T>(g: G<T>) -> nat { g.dn.data.len() + g.dn.terms }
 //@invpart reent @C15 no delivery begins while an earlier one is in progress
 //@invpart demand @C14,C06 never more answers than Pulls
 //@invpart answer @C14,C06 in pullable mode every Pull is answered: at most the Pull being served is outstanding
-//@invpart term @C02 at most one termination; the flags agree with the link phase
+//@invpart term @C02,C03,C15 at most one termination; the flags agree with the link phase (a disposal is remembered)
 //@invpart safe @C17 the result slot is empty at every yield
 pub open spec fn inv_order<T>(h: Heap<T>, g: G<T>, c: Cap) -> bool {
     &&& g.next_calls == g.dn.data.len() + (if h.res_done { 1nat } else { 0nat })
